@@ -23,7 +23,7 @@ RULE = ("cases i=0..N-1 from rng(seed, 1, 0, i): 8 edge kinds (odometry r2/r3/se
 PLAN = {
     "quick": {"cases": 6000, "soft_s": 60, "min_nontrivial": 500,
               "require": ["eval:jac-vs-AD", "eval:jac-vs-FD-of-real-error", "kind:odo-se3", "kind:lm-se3-r3", "kind:lm-se2-r2", "insitu_calls_observed",
-                          "class:q:wneg", "class:q:wzero", "class:a:nearpi_in", "class:offset_rotated", "class:far_from_origin_close_together", "history:estimate:replace", "history:estimate:in-place", "history:vertex0:in-place",
+                          "class:q:wneg", "class:q:wzero", "class:a:nearpi_in", "class:offset_rotated", "class:far_from_origin_close_together", "class:operands_of_pose_subclasses", "history:estimate:replace", "history:estimate:in-place", "history:vertex0:in-place",
                           "history:offset:replace"]},
     "thorough": {"cases": 240000, "soft_s": 1100, "min_nontrivial": 20000,
                  "require": ["eval:jac-vs-AD", "eval:jac-vs-FD-of-real-error", "kind:odo-se3", "kind:lm-se3-r3", "kind:lm-se2-r2", "insitu_calls_observed",
@@ -77,6 +77,16 @@ def make_edge(rng, typ, k, maxexp, labels):
         vs = [M.Vertex(1, M.mkpose(k, p1)), M.Vertex(2, M.mkpose(kp, l))]
     e = M.build_edge(spec)
     e.vertices = vs
+    if rng.random() < 0.1:
+        # operands that are instances of user subclasses of the pose classes (same numbers, same kind)
+        for v in vs:
+            if rng.random() < 0.7:
+                v.pose = M.as_subclass(v.pose)
+        if rng.random() < 0.5:
+            e.estimate = M.as_subclass(e.estimate)
+        if getattr(e, "offset", None) is not None and rng.random() < 0.5:
+            e.offset = M.as_subclass(e.offset)
+        labels.add("operands_of_pose_subclasses")
     return e, spec
 
 
